@@ -135,6 +135,11 @@ func fragScript(mod gfModule, self string, f gfFrag, i int) [][]pipe.ScriptPart 
 	}
 	// declarations assembled from several Render calls at places where an inserted line break changes the program
 	switch f.Kind {
+	case "skipref": // (rendered for the second type of the package, see genfileBatch)
+		parts = append(parts, t(fmt.Sprintf("var SK%d struct {\n", i)))
+		fields("\n", "K")
+		parts = append(parts, t("\n}"))
+		return [][]pipe.ScriptPart{append(append([]pipe.ScriptPart{t("\n")}, parts...), t("\n"))}
 	case "rawsplit": // inside a raw string literal
 		return [][]pipe.ScriptPart{{t(fmt.Sprintf("\nvar R%d = `ab", i))}, {t("cd` + `e")}, {t("f`\n")}}
 	case "retsplit": // between return and its operand
@@ -458,19 +463,28 @@ func genfileBatch(self, modName string, idx []int, parsed []gfCase, obsOf, concO
 	}
 	scripts := map[int][][]pipe.ScriptPart{}
 	bodies := map[string]string{}
+	skipPlan := map[string]string{}
 	for _, i := range idx {
 		pkg := fmt.Sprintf("c%d", i)
 		selfPath := mod.Path + "/" + pkg
 		pkgName := gfPkgName(modName, pkg)
 		files[pkg+"/doc.go"] = "// Package " + pkgName + " is a case.\n//\n// +gengo:a\npackage " + pkgName + "\n"
-		files[pkg+"/types.go"] = "package " + pkgName + "\n\ntype T1 struct{}\n"
-		var script [][]pipe.ScriptPart
+		files[pkg+"/types.go"] = "package " + pkgName + "\n\ntype T1 struct{}\n\ntype T2 struct{}\n"
+		var script, script2 [][]pipe.ScriptPart
 		for k, f := range parsed[i].Frags {
-			script = append(script, fragScript(mod, selfPath, f, k+1)...)
+			if f.Kind == "skipref" {
+				script2 = append(script2, fragScript(mod, selfPath, f, k+1)...)
+			} else {
+				script = append(script, fragScript(mod, selfPath, f, k+1)...)
+			}
 		}
-		scripts[i] = script
+		scripts[i] = append(append([][]pipe.ScriptPart{}, script...), script2...)
 		js, _ := json.Marshal(script)
 		bodies[selfPath+"|a|T1"] = "SCRIPT:" + string(js)
+		// the second type: renders the skipref fragments (if any) and then returns ErrSkip
+		js2, _ := json.Marshal(script2)
+		bodies[selfPath+"|a|T2"] = "SCRIPT:" + string(js2)
+		skipPlan[selfPath+"|a|T2"] = "render_skip"
 	}
 	if err := core.WriteFiles(root, files); err != nil {
 		return err
@@ -488,7 +502,7 @@ func genfileBatch(self, modName string, idx []int, parsed []gfCase, obsOf, concO
 			}
 			patterns = wp
 		}
-		spec := pipe.RunSpec{Dir: wsRoot, Layout: "siblings", Patterns: patterns, Gens: []pipe.GenSpec{{Name: "a"}}, Plan: map[string]string{}, Bodies: bodies,
+		spec := pipe.RunSpec{Dir: wsRoot, Layout: "siblings", Patterns: patterns, Gens: []pipe.GenSpec{{Name: "a"}}, Plan: skipPlan, Bodies: bodies,
 			Log: filepath.Join(scratch, "calls-"+tag+".ndjson"), Result: filepath.Join(scratch, "result-"+tag+".json")}
 		b, _ := json.Marshal(spec)
 		sp := filepath.Join(scratch, "spec-"+tag+".json")
@@ -519,6 +533,9 @@ func genfileBatch(self, modName string, idx []int, parsed []gfCase, obsOf, concO
 		_ = v
 		for x := 0; x < 40; x++ {
 			script = append(script, []pipe.ScriptPart{{T: fmt.Sprintf("\nfunc earlierVersion%d() {\n\t// this function is gone in the next version of the generator\n}\n", x)}})
+		}
+		if strings.HasSuffix(k, "|T2") {
+			script = nil // only the first type has an earlier, longer body
 		}
 		js, _ := json.Marshal(script)
 		longBodies[k] = "SCRIPT:" + string(js)
